@@ -31,6 +31,11 @@ func (e *Engine) newFuncCtx(u *Unit, fn *ssa.Function, con *Contract, pkgPath st
 			fc.strmode = "smtlib"
 		}
 		fc.props = con.Props
+		for _, rq := range con.Requires {
+			if strings.Contains(rq.Src, "held(") {
+				fc.entryLocksSymbolic = true
+			}
+		}
 	}
 	return fc
 }
@@ -47,7 +52,7 @@ func (e *Engine) findFunc(pkgPath, key string) *ssa.Function {
 	}
 	for fn := range e.allFuncs {
 		if fnPkgPath(fn) == pkgPath && relName(fn) == key && len(fn.Blocks) > 0 {
-			if fn.Synthetic != "" && !strings.Contains(fn.Name(), "$") {
+			if fn.Synthetic != "" && !strings.Contains(fn.Name(), "$") && fn.Name() != "init" {
 				continue
 			}
 			return fn
@@ -146,8 +151,33 @@ func (fc *FuncCtx) verifyBody(short string) {
 		fc.u.fact("true", ev.evalBool(rq.E))
 		fc.clauseHit[rq]++
 	}
+	for _, as := range con.Assumes {
+		ev := fc.newEnv(fr, st, st)
+		ev.useEntryParams = true
+		fc.u.fact("true", ev.evalBool(as.E))
+		fc.u.Assumptions["ghost-state well-formedness assumed for "+con.Key+": "+as.Src] = true
+	}
 	for _, us := range con.Uses {
 		fc.useLemma(us)
+	}
+	if fn.Name() != "init" || fn.Synthetic == "" {
+		// facts about initialiser-only globals of this package (proved for init under the same property tags)
+		for _, gf := range fc.eng.globals {
+			if gf.Pkg != fc.pkgPath {
+				continue
+			}
+			ev := fc.newEnv(fr, st, st)
+			fc.u.fact("true", ev.evalBool(gf.Clause.E))
+			fc.u.Assumptions["package-level fact `"+gf.Clause.Src+"` (established by the package initialiser: obligation "+shortPkg(gf.Pkg)+".init/post, and the variable is never assigned elsewhere: checked by a scan of every store in the package)"] = true
+		}
+	}
+	if fc.isPkgInit() {
+		// the initialiser runs once: its guard variable is false on entry
+		for _, m := range fn.Pkg.Members {
+			if g, ok := m.(*ssa.Global); ok && g.Name() == "init$guard" {
+				fc.storeAt(st, "G!"+globalKey(g), nil, nil, "", types.Typ[types.Bool], Scalar{"false", "Bool", types.Typ[types.Bool]})
+			}
+		}
 	}
 	entrySnap := st.clone()
 	fr.entry = entrySnap
@@ -253,7 +283,9 @@ func (fc *FuncCtx) useLemma(name string) {
 			decls = append(decls, "("+n+" "+srt+")")
 			ev.vars[p.Name] = Scalar{n, srt, t}
 		}
+		fc.u.quant++
 		body := ev.evalBool(lm.Body.E)
+		fc.u.quant--
 		if len(decls) > 0 {
 			body = "(forall (" + strings.Join(decls, " ") + ") " + body + ")"
 		}
